@@ -386,7 +386,8 @@ class _Ctx:
         if o[0] == 'P':
             if o[1] == c.self_name and c.is_method:
                 # writes through self: allowed in init methods (object under construction)
-                if c.f.node.name in INIT_METHODS: return
+                if c.f.node.name in INIT_METHODS and how == 'store' and isinstance(node, (ast.Assign, ast.AnnAssign, ast.AugAssign)) and _direct_self_store(node, c.self_name): return
+                if c.f.node.name in INIT_METHODS and c.f.cls is not None and not c.eff.prog.is_dataclass(c.f.cls): return    # hand-written __init__ builds its own fields
                 c.selfw.setdefault(how + ':' + ast.unparse(node)[:40], c.site(node, how)); c.mut.setdefault(o[1], c.site(node, how)); return
             c.mut.setdefault(o[1], c.site(node, how))
         elif o[0] == 'E':
@@ -552,6 +553,12 @@ class _Ctx:
                 c.expr_effects(st.value)
             elif isinstance(st, (ast.Raise, ast.Assert)):
                 c.expr_effects(getattr(st, 'exc', None) or getattr(st, 'test', None))
+
+
+def _direct_self_store(node, self_name) -> bool:
+    """self.attr = value  (not self.attr[k] = v, not self.attr.field = v)"""
+    targets = node.targets if isinstance(node, ast.Assign) else [node.target]
+    return all(isinstance(t, ast.Attribute) and isinstance(t.value, ast.Name) and t.value.id == self_name for t in targets)
 
 
 # ---------------------------------------------------------------------------------------------------- whole-program queries
